@@ -263,7 +263,13 @@ def rule_c(ctx: Ctx) -> None:
     ys = [n for n in gi.stmt_nodes() if n.kind == 'stmt' and any(isinstance(x, ast.Yield) for x in ast.walk(n.ast))]
     ok = bool(ys) and all(any('.abstract' in t and t.startswith('not ') and lab == 'T' for t, lab in guards(ctx, it, y)) for y in ys)
     ctx.ob(rule, 'iter_substitutes never yields an abstract member', it.loc(), ok, '', key='iter_substitutes|abstract')
-    # ... but the closure is taken through abstract members: the recursion is not filtered by abstractness
+    substitutes_closure(ctx, rule)
+    ctx.explain('C07.c: is_blocked reads element block + type block, both fall back to blockDefault; substitution is refused '
+                'under block=substitution / blocked derivation; abstract declarations are refused or delegated.')
+
+
+def substitutes_closure(ctx: Ctx, rule: str) -> None:
+    """the closure of a substitution group is taken through abstract members: the recursion is not filtered by abstractness"""
     for q in (f'{ELEM}.iter_substitutes', 'xmlschema.validators.elements.Xsd11Element.iter_substitutes'):
         try:
             fi = ctx.idx.func(q)
@@ -279,8 +285,6 @@ def rule_c(ctx: Ctx) -> None:
         ctx.ob(rule, f'{q.split(".")[-2]}.iter_substitutes follows the substitution chain through abstract members (only the yield is filtered)',
                fi.loc(rec[0].ast), ok, '' if ok else 'the recursion runs only for non-abstract members: a concrete member that substitutes an abstract '
                'intermediate member is no longer accepted in place of the head', key=f'{q}|closure-through-abstract')
-    ctx.explain('C07.c: is_blocked reads element block + type block, both fall back to blockDefault; substitution is refused '
-                'under block=substitution / blocked derivation; abstract declarations are refused or delegated.')
 
 
 def rule_d(ctx: Ctx) -> None:
